@@ -35,3 +35,29 @@ class RecordingTrainable(Component, Trainable):
         from lenskit.random import random_generator
         self.calls.append((int(random_generator(options.rng).integers(1 << 30)) if options.rng is not None else None, data.interaction_count))
     def __call__(self, items: ItemList) -> ItemList: return items
+
+
+def builder_state(pb):
+    """Extract the builder state the C13 model consumes (declaration orders as they are)."""
+    from typing import Mapping
+    from pydantic import TypeAdapter, JsonValue
+    from lenskit.pipeline.nodes import InputNode, LiteralNode, ComponentNode
+    from lenskit.pipeline import config as pcfg
+    from lenskit.pipeline.types import type_string
+    inputs = []; comps = []; lits = []
+    for node in pb.nodes():
+        if isinstance(node, InputNode):
+            types = None if node.types is None else list({type_string(t) for t in node.types})   # the set of strings the code builds, in its iteration order
+            inputs.append({"name": node.name, "types": types})
+        elif isinstance(node, LiteralNode):
+            lit = pcfg.PipelineLiteral.represent(node.value)
+            lits.append({"name": node.name, "encoding": lit.encoding, "value": TypeAdapter(JsonValue).dump_json(lit.value).decode()})
+        elif isinstance(node, ComponentNode):
+            pc = pcfg.PipelineComponent.from_node(node)
+            conf = None if pc.config is None else TypeAdapter(Mapping[str, JsonValue]).dump_json(pc.config).decode()
+            comps.append({"name": node.name, "code": pc.code, "config": conf, "params": list(node.inputs.keys()),
+                          "edges": [[k, v] for k, v in pb._edges.get(node.name, {}).items()]})
+    return {"name": pb.name, "version": pb.version, "inputs": inputs, "comps": comps,
+            "aliases": [[a, n.name] for a, n in pb._aliases.items()],
+            "defaults": [[k, v] for k, v in pb._default_connections.items()],
+            "default": pb._default, "literals": lits}
